@@ -35,18 +35,18 @@ func TestC35(t *testing.T) {
 	m.Assume("the harness pipe delivers packets reliably and in order and logs writes/reads under one mutex (total order); the hand-written RFC 4254 codec (wire.go, own vector test); Go runtime goroutine dumps for parked-state evidence")
 	m.Note("the TLA+ model named in the property's quantifier is outside this technique family; at most one writer per (channel, stream code) because concurrent writers with the same code are a documented non-feature of WriteExtended")
 
-	m.Cases("flow", m.N(360, 12000), func(i int64, r *rand.Rand) { flowCase(m, i, r) })
-	m.Cases("recv", m.N(48, 1500), func(i int64, r *rand.Rand) { recvCase(m, i, r) })
-	m.Cases("pair", m.N(48, 1500), func(i int64, r *rand.Rand) { pairCase(m, i, r) })
+	m.Cases("flow", m.N(360, 3000), func(i int64, r *rand.Rand) { flowCase(m, i, r) })
+	m.Cases("recv", m.N(48, 360), func(i int64, r *rand.Rand) { recvCase(m, i, r) })
+	m.Cases("pair", m.N(48, 360), func(i int64, r *rand.Rand) { pairCase(m, i, r) })
 
-	m.Gate("forced_zero_window_parks", m.N(360, 12000), "writers shown parked in window.reserve (goroutine dump) on a window the log shows exhausted")
-	m.Gate("trickle_steps_completed", m.N(360, 12000), "small adjusts released to a parked writer followed by exactly the granted bytes")
-	m.Gate("exact_max_packets", m.N(2*360, 2*12000), "data packets of exactly the peer's maximum packet size")
-	m.Gate("overflow_adjust_refused_or_ignored", m.N(170, 5000), "adjust pushing the window above 2^32-1 not wrapped")
-	m.Gate("window_at_max_accepted", m.N(170, 5000), "adjust to exactly 2^32-1 accepted")
-	m.Gate("recv_discarded_ext_credited", m.N(48*60, 1500*60), "discarded extended data (code>1) packets whose bytes were credited back by WINDOW_ADJUST")
-	m.Gate("recv_window_filled_exactly", m.N(48, 1500), "compliant sender consumed the mux's window to exactly zero and was released by adjusts")
-	m.Gate("pair_writer_parked_on_real_window", m.N(48, 1500), "real mux writer parked on a real mux receiver's exhausted window")
+	m.Gate("forced_zero_window_parks", m.N(360, 3000), "writers shown parked in window.reserve (goroutine dump) on a window the log shows exhausted")
+	m.Gate("trickle_steps_completed", m.N(360, 3000), "small adjusts released to a parked writer followed by exactly the granted bytes")
+	m.Gate("exact_max_packets", m.N(2*360, 2*3000), "data packets of exactly the peer's maximum packet size")
+	m.Gate("overflow_adjust_refused_or_ignored", m.N(170, 1400), "adjust pushing the window above 2^32-1 not wrapped")
+	m.Gate("window_at_max_accepted", m.N(170, 1400), "adjust to exactly 2^32-1 accepted")
+	m.Gate("recv_discarded_ext_credited", m.N(48*60, 360*60), "discarded extended data (code>1) packets whose bytes were credited back by WINDOW_ADJUST")
+	m.Gate("recv_window_filled_exactly", m.N(48, 360), "compliant sender consumed the mux's window to exactly zero and was released by adjusts")
+	m.Gate("pair_writer_parked_on_real_window", m.N(48, 360), "real mux writer parked on a real mux receiver's exhausted window")
 }
 
 // ---------------------------------------------------------------- flow ----
